@@ -104,6 +104,3 @@ HARNESS h_poolm_4_4_4_4() { pool_seq<true, 4, 4, 4, 4>(); }
 HARNESS h_poolm_16_8_4() { pool_seq<true, 16, 8, 4>(); }
 HARNESS h_poolm_4_8_4() { pool_seq<true, 4, 8, 4>(); }
 HARNESS h_poolm_1_8_1() { pool_seq<true, 1, 8, 1>(); }
-HARNESS h_poolm_x44() { pool_seq<false, 4, 4>(); }
-HARNESS h_poolm_x444() { pool_seq<false, 4, 4, 4>(); }
-HARNESS h_poolm_x444f() { pool_seq<true, 4, 4, 4>(); }
